@@ -187,6 +187,17 @@ def run(ctx: Ctx) -> None:
             ctx.check(fwd, "RF-BOUND", f"cap-honoured:{m.name}", deco, rst,
                       ok=f"{m}: `{cap}` is forwarded to {callee.name}",
                       bad=f"{m}: `{cap}` is not forwarded to {callee.name} (`{txt(rst)}`): the cap is ignored for this codec")
+            # the cap bounds the *output*: a compressed body longer than the cap may still decode to something that fits
+            # (incompressible or tiny payloads are larger compressed than plain), so it must reach the decoder
+            env = dict(menv)
+            env.update({p_enc: m, p_data: b"\x01" * 11, cap: 10})
+            o = Explorer(ctx, deco).run(env)
+            reached = o.reaches(rst)
+            early = [c for c in o.raised_classes()] if not reached else []
+            ctx.check(reached, "RF-BOUND", f"cap-is-on-output-not-input:{m.name}", deco, rst,
+                      ok=f"{m}: an 11-byte compressed body under {cap}=10 is handed to {callee.name} (only the decoded size is capped)",
+                      bad=f"{m}: a compressed body longer than `{cap}` is refused ({early}) before decoding: a payload that fits the cap once decoded (small or incompressible data is "
+                      "longer compressed than plain) fails instead of being returned")
             continue
         # branch handled inline: evaluate at len = cap + 1 and len = cap
         res = {}
